@@ -25,6 +25,15 @@
                                     of finishing after any history is `toD (diffDocs o orc f t)`, L2's script.
                                     Hypotheses: distinct keys, `OrcFull` (solver answers of full size), and without
                                     key edits `fkOK` (D24).
+
+  ASSUMPTION built into every `history_independent*` statement: ONE solver oracle `orc` (hence one `orc.assign`) is
+  shared by the run after the history (`run q1 … ops`, `finish q1 … m1`) and by the fresh run (`finish q2 … (mkEdit …)`).
+  In the code the assignment is computed by scipy from the edges' `bounds().upper_bound` at the moment the matching is
+  forced (`matching.py`, after `_make_edges_distinct`), so the solver's answer is a function of the edge bounds AT SOLVE
+  TIME — exactly a quantity that another history / `quiet` setting could change; a different full-size answer gives a
+  different `diffDocs o orc.assign f t`.  The model takes the answer from the recorded run.  The theorems therefore
+  say "results do not depend on the history, GIVEN that the solver answers the same"; that it does is checked per run
+  by the `history` stream (both runs are recorded and compared), not proved.
 -/
 import GtModel.Props.C04
 import GtModel.Proofs.LazyEd
